@@ -1988,3 +1988,145 @@ CONTROLS['C03'] += [
       "                same_subtrees.append(suffixes)\n",
       "                same_subtrees += [suffixes]\n"),
 ]
+
+# ---- round 6 rules -----------------------------------------------------------
+CONTROLS['C02'] += [
+    M('c02-merge-no-exit-after', RCX,
+      "        if not provs_with_inv:\n"
+      "            return rp_candidates.RPCandidateList()\n\n",
+      "\n", 'R2.6'),
+    M('c02-merge-exit-before-filter', RCX,
+      "            provs_with_inv_rc.filter_by_rp_nor_tree(rps_bad_aggs)\n"
+      "            LOG.debug(\"found %d providers under %d trees after applying \"\n"
+      "                      \"negative aggregate filter %s\",\n"
+      "                      len(provs_with_inv_rc.rps), len(provs_with_inv_rc.trees),\n"
+      "                      rg_ctx.forbidden_aggs)\n"
+      "            if not provs_with_inv_rc:\n"
+      "                # Short-circuit returning an empty RPCandidateList\n"
+      "                return rp_candidates.RPCandidateList()\n",
+      "            provs_with_inv_rc.filter_by_rp_nor_tree(rps_bad_aggs)\n",
+      'R2.6'),
+    B('c02-benign-merge-exit-len', RCX,
+      "        if not provs_with_inv:\n"
+      "            return rp_candidates.RPCandidateList()\n\n",
+      "        if not provs_with_inv:\n"
+      "            LOG.debug('no tree left')\n"
+      "            return rp_candidates.RPCandidateList()\n\n"),
+]
+CONTROLS['C03'] += [
+    M('c03-exit-before-sharing-added', RCX,
+      "        sharing_providers = rg_ctx.get_rps_with_shared_capacity(rc_id)\n",
+      "        if rw_ctx.anchor_root_ids:\n"
+      "            provs_with_inv_rc.filter_by_tree(rw_ctx.anchor_root_ids)\n"
+      "            if not provs_with_inv_rc:\n"
+      "                return rp_candidates.RPCandidateList()\n"
+      "        sharing_providers = rg_ctx.get_rps_with_shared_capacity(rc_id)\n",
+      'R3.11'),
+    M('c03-merge-no-exit-after', RCX,
+      "        if not provs_with_inv:\n"
+      "            return rp_candidates.RPCandidateList()\n\n",
+      "\n", 'R3.12'),
+]
+CONTROLS['C09'] += [
+    M('c09-in-tree-extra-predicate', RP,
+      "        query = query.where(rp.c.root_provider_id == root_id)\n",
+      "        query = query.where(rp.c.root_provider_id == root_id)\n"
+      "        query = query.where(rp.c.id >= root_id)\n", 'R9.9'),
+    M('c09-create-root-when-parent-given', RP,
+      "        if root_id is None:\n",
+      "        if parent_id is None or root_id is not None:\n", 'R9.'),
+    M('c09-update-unparent-stores-parent-root', RP,
+      "                    updates['root_provider_id'] = my_ids.id\n",
+      "                    updates['root_provider_id'] = my_ids.root_id\n",
+      'R9.2'),
+    B('c09-benign-update-root-through-local', RP,
+      "                    updates['root_provider_id'] = my_ids.id\n",
+      "                    own_id = my_ids.id\n"
+      "                    updates['root_provider_id'] = own_id\n"),
+]
+CONTROLS['C11'] += [
+    M('c11-empty-name-filter-skipped', OT,
+      "    if 'name_in' in filters:\n",
+      "    if filters.get('name_in'):\n", 'R11.10'),
+    M('c11-insert-default-instead-of-given', RP,
+      "            allocation_ratio=inv_record.allocation_ratio)\n"
+      "        ctx.session.execute(ins_stmt)\n",
+      "            allocation_ratio=inv_record.allocation_ratio or 1.0)\n"
+      "        ctx.session.execute(ins_stmt)\n", 'R11.1'),
+    B('c11-benign-name-filter-get', OT,
+      "    if 'name_in' in filters:\n",
+      "    if filters.get('name_in') is not None:\n"),
+]
+CONTROLS['C01'] += [
+    M('c01-insert-default-instead-of-given', RP,
+      "            allocation_ratio=inv_record.allocation_ratio)\n"
+      "        ctx.session.execute(ins_stmt)\n",
+      "            allocation_ratio=inv_record.allocation_ratio or 1.0)\n"
+      "        ctx.session.execute(ins_stmt)\n", 'R1.7'),
+]
+CONTROLS['C17'] += [
+    M('c17-reread-after-commit', H + 'resource_provider.py',
+      "    response = req.response\n    response.status = 200\n"
+      "    response.body = encodeutils.to_utf8(jsonutils.dumps(\n"
+      "        _serialize_provider(req.environ, resource_provider, want_version)))\n",
+      "    resource_provider = rp_obj.ResourceProvider.get_by_uuid(\n"
+      "        context, uuid)\n"
+      "    response = req.response\n    response.status = 200\n"
+      "    response.body = encodeutils.to_utf8(jsonutils.dumps(\n"
+      "        _serialize_provider(req.environ, resource_provider, want_version)))\n",
+      'R17.7'),
+]
+CONTROLS['C20'] += [
+    M('c20-handler-drops-after-limit', H + 'allocation_candidate.py',
+      "    response = req.response\n    trx_cands = _transform_allocation_candidates(cands, groups, want_version)\n",
+      "    cands.allocation_requests = cands.allocation_requests[1:]\n"
+      "    response = req.response\n    trx_cands = _transform_allocation_candidates(cands, groups, want_version)\n",
+      'R20.6'),
+]
+CONTROLS['C16'] += [
+    M('c16-old-defaults', 'placement/conf/__init__.py',
+      "    policy_opts.set_defaults(conf)\n",
+      "    policy_opts.set_defaults(conf, enforce_new_defaults=False)\n",
+      'R16.6'),
+    M('c16-context-before-test', 'placement/auth.py',
+      "        if ctx.user_id is None and req.environ['PATH_INFO'] not in ['/', '']:\n",
+      "        req.environ['placement.context'] = ctx\n"
+      "        if ctx.user_id is None and req.environ['PATH_INFO'] not in ['/', '']:\n",
+      'R16.4'),
+    B('c16-benign-401-guard-inverted', 'placement/auth.py',
+      "        if ctx.user_id is None and req.environ['PATH_INFO'] not in ['/', '']:\n"
+      "            LOG.debug(\"Neither X_USER_ID nor X_USER found in request\")\n"
+      "            return webob.exc.HTTPUnauthorized()\n\n"
+      "        req.environ['placement.context'] = ctx\n"
+      "        return self.application\n",
+      "        if ctx.user_id is not None or req.environ['PATH_INFO'] in ('/', ''):\n"
+      "            req.environ['placement.context'] = ctx\n"
+      "            return self.application\n"
+      "        return webob.exc.HTTPUnauthorized()\n"),
+]
+CONTROLS['C19'] += [
+    M('c19-flag-before-sync', OT,
+      "            _trait_sync(ctx)\n            _TRAITS_SYNCED = True\n",
+      "            _TRAITS_SYNCED = True\n            _trait_sync(ctx)\n",
+      'R19.6'),
+    B('c19-benign-once-guard-clause', OT,
+      "        if not _TRAITS_SYNCED:\n"
+      "            _trait_sync(ctx)\n            _TRAITS_SYNCED = True\n",
+      "        if _TRAITS_SYNCED:\n            return\n"
+      "        _trait_sync(ctx)\n        _TRAITS_SYNCED = True\n"),
+]
+CONTROLS['C13'] += [
+    M('c13-member-of-bang-to-required', 'placement/util.py',
+      "    elif value.startswith('!'):\n        forbidden = set([value[1:]])\n",
+      "    elif value.startswith('!'):\n        required = set([value[1:]])\n",
+      'R13.6'),
+    M('c13-member-of-cut-too-short', 'placement/util.py',
+      "        forbidden = set(value[4:].split(','))\n",
+      "        forbidden = set(value[3:].split(','))\n", 'R13.6'),
+]
+CONTROLS['C12'] += [
+    M('c12-created-flag-in-handler-path', H + 'util.py',
+      "    created_new_consumer = False\n    try:\n        consumer = consumer_obj.Consumer(\n",
+      "    created_new_consumer = True\n    try:\n        consumer = consumer_obj.Consumer(\n",
+      'R12.8'),
+]
